@@ -28,6 +28,20 @@ enum Var {
     List,
     /// a sub-list of the lottery indices inside the signature
     Inner,
+    /// a signature the signer made for ANOTHER message (valid for that one, announced with that one)
+    OtherMsg,
+}
+
+/// how a submission reaches the certifier
+#[derive(Clone, Copy, Debug, PartialEq)]
+enum Mode {
+    /// straight to the certifier with the authentication flag chosen here
+    Direct(bool),
+    /// authenticated, before the open message exists (buffered, handed over later)
+    Buffered,
+    /// as the HTTP route does: the REAL `SingleSignatureAuthenticator` judges it against the signed message the
+    /// submitter announces; rejected ones never reach the certifier
+    Http,
 }
 
 #[derive(Clone, Copy, Debug)]
@@ -68,12 +82,16 @@ struct Round<'a> {
 
 impl<'a> Round<'a> {
     /// build and submit one (label, signature) pair for `ent`; checks that no other label's row changes
-    async fn submit(&mut self, ent: usize, s: &Sub, auth: bool) -> Option<String> {
+    async fn submit(&mut self, ent: usize, s: &Sub, mode: Mode) -> Option<String> {
         let ep = self.g.w.entities[ent].get_epoch_when_signed_entity_type_is_signed().0;
         let msg = self.g.w.message_for(ent).await?;
-        let mut sig = self.g.w.make_signature(s.signer, ep - 1, &msg)?;
+        let mut announced = msg.clone();
+        if s.var == Var::OtherMsg {
+            announced.set_message_part(mithril_common::entities::ProtocolMessagePartKey::SnapshotDigest, "another-message".into());
+        }
+        let mut sig = self.g.w.make_signature(s.signer, ep - 1, &announced)?;
         match s.var {
-            Var::Plain => {}
+            Var::Plain | Var::OtherMsg => {}
             Var::List => {
                 sig.won_indexes = sig.won_indexes.iter().skip(1).map(|i| i + 1).collect();
             }
@@ -82,6 +100,29 @@ impl<'a> Round<'a> {
             }
         }
         let label = if s.label == UNREG { self.g.w.n() + 7 } else { s.label };
+        let auth = match mode {
+            Mode::Direct(a) => a,
+            Mode::Buffered => true,
+            Mode::Http => {
+                let mut probe = sig.clone();
+                probe.party_id = if label < self.g.w.n() { self.g.w.party_ids[label].clone() } else { "pool1unregisteredpartyofnobody".to_string() };
+                let authenticator = self.g.w.tester.dependencies.verif_single_signature_authenticator();
+                let _ = authenticator.authenticate(&mut probe, &announced.compute_hash()).await;
+                let ok = probe.is_authenticated();
+                self.g.w.tags.insert(format!("http-{}-{}", if s.label == s.signer { "own" } else if s.label == UNREG { "unregistered" } else { "relabel" }, if ok { "authenticated" } else { "rejected" }));
+                if ok && s.label != s.signer {
+                    self.fails.push(("authenticated-relabel".into(), format!("the authenticator accepted party {}'s signature under the label {}", s.signer, s.label)));
+                }
+                if !ok && s.label == s.signer && s.var != Var::List {
+                    // (an altered `won_indexes` list is not looked at by the authenticator either way)
+                    self.fails.push(("own-signature-not-authenticated".into(), format!("the authenticator rejected party {}'s own valid signature for the message it announces", s.signer)));
+                }
+                if !ok {
+                    return None; // 400: never reaches the certifier
+                }
+                true
+            }
+        };
         let chain_epoch = self.g.w.time_point().await.epoch.0;
         let f = self.g.w.facts(ent, label, s.signer, &sig, &msg, auth, chain_epoch);
         if label == s.signer && f.ok.contains(&ep) {
@@ -96,7 +137,7 @@ impl<'a> Round<'a> {
                 self.fails.push(("other-row-changed".into(), format!("a submission under label {} changed or removed the row of party {}", label, self.g.w.party_ord(&r.party))));
             }
         }
-        self.g.w.tags.insert(format!("sub-{}-{}-{}", if s.label == s.signer { "own" } else if s.label == UNREG { "unregistered" } else { "relabel" }, match s.var { Var::Plain => "plain", Var::List => "list", Var::Inner => "inner" }, o));
+        self.g.w.tags.insert(format!("sub-{}-{}-{}", if s.label == s.signer { "own" } else if s.label == UNREG { "unregistered" } else { "relabel" }, match s.var { Var::Plain => "plain", Var::List => "list", Var::Inner => "inner", Var::OtherMsg => "othermsg" }, o));
         Some(o)
     }
 
@@ -160,6 +201,8 @@ fn sets(n: usize) -> Vec<Vec<Sub>> {
         vec![sub(a, b, Inner), sub(b, b, Plain)],
         vec![sub(a, a, Plain), sub(b, b, Plain), sub(a, b, Plain), sub(UNREG, a, Plain)],
         vec![sub(a, a, Plain), sub(a, a, Inner), sub(b, b, Inner)],
+        vec![sub(a, a, OtherMsg), sub(b, b, Plain)],
+        vec![sub(b, b, Plain), sub(a, b, OtherMsg), sub(a, a, Plain), sub(b, b, OtherMsg)],
     ];
     if n >= 3 {
         v.push(vec![sub(a, c, Plain), sub(b, c, Plain), sub(c, c, Plain)]);
@@ -232,8 +275,8 @@ async fn main() {
         let mut g = new_world(&format!("c16_{}_witness", args.seed), 3, 5).await;
         let ent = g.w.last_dump.oms[0].ent;
         let mut r = Round { g: &mut g, fails: vec![] };
-        let o1 = r.submit(ent, &sub(1, 1, Var::Plain), false).await.unwrap_or_default();
-        let o2 = r.submit(ent, &sub(0, 1, Var::Plain), false).await.unwrap_or_default();
+        let o1 = r.submit(ent, &sub(1, 1, Var::Plain), Mode::Direct(false)).await.unwrap_or_default();
+        let o2 = r.submit(ent, &sub(0, 1, Var::Plain), Mode::Direct(false)).await.unwrap_or_default();
         let d = r.g.w.last_dump.clone();
         let same = d.sigs.len() == 2 && d.sigs[0].signature == d.sigs[1].signature;
         let (ok, _) = r.g.w.tick().await;
@@ -246,7 +289,7 @@ async fn main() {
         // a valid signature under a party id nobody registered (made the store panic on its foreign key)
         r.g.w.tick().await;
         let ent2 = r.g.w.last_dump.oms.last().unwrap().ent;
-        let o3 = r.submit(ent2, &sub(UNREG, 2, Var::Plain), false).await.unwrap_or_default();
+        let o3 = r.submit(ent2, &sub(UNREG, 2, Var::Plain), Mode::Direct(false)).await.unwrap_or_default();
         sink.witness("C16-unregistered-label-panic", o3 == "panic" || o3 == "registered", &format!("C's signature under an unregistered party id -> {}", o3));
         r.check_rows(ent);
         let fails = std::mem::take(&mut r.fails);
@@ -280,12 +323,15 @@ async fn main() {
         let mut rounds = 0u64;
         for (si, set) in all_sets.iter().enumerate() {
             // quick: each world takes the sets congruent to it (every set runs in some world); thorough: all
-            if !args.thorough() && si % 5 != wi % 5 && !(si >= 11 && *n >= 3 && wi % 2 == 1) {
+            if !args.thorough() && si % 5 != wi % 5 && !(si >= 13 && *n >= 3 && wi % 2 == 1) {
                 continue;
             }
             let cap = if args.thorough() { 24 } else { 12 };
             for perm in permutations(set.len(), cap, &mut rng) {
-                for buffered in [false, true] {
+                // direct submissions come both unauthenticated (HTTP without / with failed authentication) and flagged
+                // authenticated (HTTP authenticator, message queue): the certifier must verify them all the same
+                for mode in [Mode::Direct(false), Mode::Direct(true), Mode::Buffered, Mode::Http] {
+                    let buffered = mode == Mode::Buffered;
                     rounds += 1;
                     // a new beacon opens a new round
                     settle_ready(&mut g).await;
@@ -298,7 +344,7 @@ async fn main() {
                         r.g.w.tick().await; // ready -> signing: the open message exists
                     }
                     for i in &perm {
-                        r.submit(ent, &set[*i], buffered).await;
+                        r.submit(ent, &set[*i], mode).await;
                     }
                     if buffered {
                         r.g.w.tick().await; // the open message is created and the buffered signatures are handed over
